@@ -27,7 +27,12 @@ RULE = ('cases = policy files from the expression generator (role, attribute, sy
         'continues the stem with `:` and its siblings continue it with a character that sorts below `:` (- . / digit ! # + , $ & *) or above it '
         '(; = @ _ ~ letter, non-ASCII letter), plus names with an empty segment, a trailing or leading colon, many segments, other letter case, and '
         'colon-less siblings; the expected listing is Python\'s sorted() over the names that contain a colon, compared line by line; such names '
-        'are also requested singly.')
+        'are also requested singly. '
+        'Large-file stratum: files with 20..60 colon-named policies plus colon-less aliases (chains of up to four defined aliases, aliases that themselves '
+        'end in an undefined name), of which 0, 5, 15, 16, 17, 30 or all but one refer - alone, under not / and / or, in the list spelling, through such an alias - '
+        'to a name the file does not define, placed first, last or anywhere in sorted order among policies that go through defined aliases or are plain '
+        'leaf checks; with and without a default rule; listing mode and requested-rule mode; same tokens, targets and options; every printed verdict of '
+        'the one checker run is compared with one Enforcer.enforce call per policy.')
 ASSUMPTIONS = ['credentials: token dict + role names + user_id + project_id + system_scope (all) + is_admin; target: the '
                'flattened target file, or user_id/project_id of the token (the derivation the tool documents)',
                'http(s) leaves are not generated (the tool needs an enforcer config for them; transport is C16\'s subject)',
@@ -38,10 +43,15 @@ LEVEL_NOTE = 'trusted: the harness\'s derivation of credentials/target from the 
 PLAN = {'quick': dict(shards=4, wall=120), 'thorough': dict(shards=16, wall=400)}
 MIN = {'evaluations': 500, 'verdict_lines': 1500, 'passed_lines': 200, 'failed_lines': 200, 'system_tokens': 50,
        'requested_rule_runs': 100, 'order_name_listings': 100, 'listings_sibling_below_colon': 80, 'listings_sibling_above_colon': 80,
-       'listings_empty_segment': 30, 'listings_case_only_pair': 30, 'order_name_requested': 10}
+       'listings_empty_segment': 30, 'listings_case_only_pair': 30, 'order_name_requested': 10,
+       'large_listings': 100, 'large_listings_no_undefined_ref': 8, 'large_listings_16plus_undefined_refs': 40,
+       'large_listings_16plus_undefined_refs_no_default': 15, 'large_listings_16plus_undefined_refs_with_default': 15,
+       'large_listings_defined_alias_after_16_undefined_refs_no_default': 10, 'large_requested_rule_runs': 30}
 ANCHORS = ['oslo_policy.shell:tool', 'oslo_policy.shell:_try_rule', 'oslo_policy.shell:flatten', 'oslo_policy.policy:Enforcer.enforce']
 REQUIRED_ANCHORS = ['oslo_policy.shell:tool']
 N = {'quick': 4000, 'thorough': 80000}
+
+NL = {'quick': 400, 'thorough': 6000}            # large-file cases (all shards together)
 
 LEAVES = ['role:admin', 'role:member', 'role:x', 'user_id:%(user_id)s', 'project_id:%(project_id)s', 'is_admin:True',
           'system_scope:all', 'system:all', 'system.all:True', 'project.id:%(project_id)s', 'domain.id:d1', '@', '!',
@@ -102,7 +112,8 @@ def gen_order_names(rnd):
     return names
 
 
-def gen_case(rnd):
+def gen_token(rnd):
+    """(generated token, index of a sample token or None) - the tokens of every stratum."""
     scope = rnd.choice(['project', 'domain', 'system', 'unscoped'])
     roles = rnd.sample(['admin', 'member', 'reader', 'x'], rnd.randint(0, 3))
     tok = {'token': {'roles': [{'id': 'i%d' % i, 'name': r} for i, r in enumerate(roles)],
@@ -116,6 +127,115 @@ def gen_case(rnd):
     sample = None
     if rnd.random() < 0.25:
         sample = rnd.randrange(3)
+    return tok, sample
+
+
+def gen_target(rnd):
+    items = [('user_id', rnd.choice(['u1', 'u2'])), ('project_id', rnd.choice(['p1', 'p2'])), ('scope', rnd.choice(['all', 'none'])),
+             ('a', {'b': 'default', 'c': {'d': rnd.choice(['u1', 1]), 'e': {}}, 'z': 'after-nested'}),
+             ('target', {'project': {'id': 'p1'}, 'name': 'n'}), ('empty', {})]
+    rnd.shuffle(items)
+    return dict(items[:rnd.randint(3, len(items))])
+
+
+ALIAS_NAMES = ['admin_required', 'owner', 'admin_or_owner', 'context_is_admin', 'member_or_reader', 'helper', 'Any', 'svc_role', '_internal', 'x-api']
+UNDEFINED_NAMES = ['ghost', 'gone_api', 'old:admin', 'Removed', 'x_legacy', 'admin-required', 'context_is_admin_v1', 'no:such:rule']
+MANY = [0, 5, 15, 16, 17, 30, 'all-but-one']
+
+
+def gen_large_case(rnd):
+    """A policy file of realistic size: 20..60 listed (colon-named) policies over a handful of aliases, a chosen number of which
+    refer to names that the file does not define."""
+    tok, sample = gen_token(rnd)
+    n = rnd.randint(20, 60)
+    names = set()
+    while len(names) < n:
+        nme = rnd.choice(SEGMENTS) + ':' + rnd.choice(SEGMENTS)
+        if rnd.random() < 0.3:
+            nme += ':' + rnd.choice(SEGMENTS)
+        if nme in names and rnd.random() < 0.5:
+            nme += '_%d' % len(names)
+        names.add(nme)
+    names = sorted(names)
+    k = rnd.choice(MANY)
+    k = n - 1 if k == 'all-but-one' else min(k, n - 1)
+    where = rnd.choice(['first', 'first', 'last', 'anywhere', 'anywhere'])
+    if where == 'first':
+        dangling = set(names[:k])
+    elif where == 'last':
+        dangling = set(names[n - k:])
+    else:
+        dangling = set(rnd.sample(names, k))
+    # colon-less helpers: a chain of defined aliases (each may refer to earlier ones only: no cycles) ...
+    aliases = rnd.sample(ALIAS_NAMES, rnd.randint(1, 4))
+    helpers = {}
+    for i, a in enumerate(aliases):
+        body = gen_rule(rnd, rnd.randint(0, 1), LEAVES if rnd.random() < 0.6 else ['role:admin', 'is_admin:True', '@', 'role:member', 'user_id:%(user_id)s'])
+        if i and rnd.random() < 0.7:
+            body = rnd.choice(['rule:<A>', 'rule:<A> or ' + body, body + ' or rule:<A>', 'rule:<A> and ' + body, 'not rule:<A>']).replace('<A>', aliases[rnd.randrange(i)])
+        helpers[a] = body
+    # ... and the names nothing defines; a stale alias is a defined alias whose body ends in one of them
+    undefined = rnd.sample(UNDEFINED_NAMES, rnd.randint(1, 3))
+    stale = None
+    if k and rnd.random() < 0.4:
+        stale = rnd.choice([a for a in ALIAS_NAMES if a not in helpers])
+        helpers[stale] = rnd.choice(['rule:%s', 'rule:%s', 'role:admin and rule:%s', 'rule:%s or role:x']) % rnd.choice(undefined)
+    plain = [nme for nme in names if nme not in dangling and rnd.random() < 0.35]       # leaf-only policies, usable as `rule:` targets too
+    rules = {}
+    for nme in names:
+        leaf = rnd.choice(LEAVES)
+        if nme in dangling:
+            u = 'rule:' + (stale if stale and rnd.random() < 0.3 else rnd.choice(undefined))
+            shape = rnd.randrange(10)
+            if shape < 3:
+                body = u
+            elif shape == 3:
+                body = 'not ' + u
+            elif shape == 4:
+                body = rnd.choice([leaf + ' and ' + u, u + ' and ' + leaf])
+            elif shape == 5:
+                body = rnd.choice([leaf + ' or ' + u, u + ' or ' + leaf])
+            elif shape == 6:
+                body = '(%s or rule:%s)' % (u, rnd.choice(aliases))
+            elif shape == 7:
+                body = u + rnd.choice([' or ', ' and ']) + 'rule:' + rnd.choice(undefined)
+            elif shape == 8:
+                body = rnd.choice([[[u]], [[u, leaf]], [[leaf], [u]]])                  # the legacy list spelling
+            else:
+                body = '(%s and not %s)' % (leaf, u)
+        elif nme in plain:
+            body = gen_rule(rnd, rnd.randint(0, 1), LEAVES)
+        else:
+            a = 'rule:' + (rnd.choice(plain) if plain and rnd.random() < 0.15 else rnd.choice(aliases))
+            shape = rnd.randrange(8)
+            if shape < 3:
+                body = a
+            elif shape == 3:
+                body = 'not ' + a
+            elif shape == 4:
+                body = rnd.choice([leaf + ' and ' + a, a + ' or ' + leaf, a + ' and ' + leaf, leaf + ' or ' + a])
+            elif shape == 5:
+                body = [[a], [leaf]]
+            else:
+                body = gen_rule(rnd, rnd.randint(1, 2), LEAVES + ['rule:' + x for x in aliases])
+        rules[nme] = body
+    items = list(rules.items()) + list(helpers.items())
+    if rnd.random() < 0.5:
+        items.append(('default', rnd.choice([gen_rule(rnd, 1, LEAVES), 'role:admin', '!', '@', 'rule:' + aliases[0]])))
+    rnd.shuffle(items)                              # file order is not sorted order
+    rules = dict(items)
+    rule = None
+    if rnd.random() < 0.25:
+        rule = rnd.choice([rnd.choice(names), rnd.choice(names), rnd.choice(sorted(dangling) or names), rnd.choice(aliases), rnd.choice(undefined)])
+    target = gen_target(rnd) if rnd.random() < 0.3 else None
+    fmt = rnd.choice(['json', 'yaml'])
+    if fmt == 'yaml' and not files.yaml_roundtrips(rules):
+        fmt = 'json'
+    return dict(rules=rules, token=tok, sample=sample, target=target, is_admin=rnd.random() < 0.5, rule=rule, fmt=fmt)
+
+
+def gen_case(rnd):
+    tok, sample = gen_token(rnd)
     names = ['svc:a', 'svc:b', 'helper', 'svc:c', 'other:x', 'a:b:c', 'Zeta:x', 'svc:B', '_x:y']
     rules = {}
     for nme in names:
@@ -217,6 +337,56 @@ def count_order_features(ctx, requested, keys):
         ctx.count('listings_case_only_pair')
 
 
+def rule_refs(body):
+    """Names referred to with `rule:` in a policy body (string or list spelling)."""
+    if isinstance(body, str):
+        return re.findall(r'rule:([^\s()]+)', body)
+    if isinstance(body, (list, tuple)):
+        return [r for b in body for r in rule_refs(b)]
+    return []
+
+
+def reaches_undefined(rules, key, memo):
+    """Syntactically: does the body of `key` refer, directly or through defined names, to a name the file does not define?"""
+    if key in memo:
+        return memo[key]
+    memo[key] = False                               # cuts cycles
+    res = False
+    for r in rule_refs(rules[key]):
+        if r not in rules or reaches_undefined(rules, r, memo):
+            res = True
+            break
+    memo[key] = res
+    return res
+
+
+def count_large_features(ctx, requested, rules, keys):
+    """Coverage of the large-file stratum, computed from the file itself (never from how it was generated)."""
+    if requested:
+        ctx.count('large_requested_rule_runs')
+        return
+    ctx.count('large_listings')
+    memo = {}
+    und = [reaches_undefined(rules, k, memo) for k in keys]
+    nd = sum(und)
+    if nd == 0:
+        ctx.count('large_listings_no_undefined_ref')
+    if nd >= 16:
+        ctx.count('large_listings_16plus_undefined_refs')
+        if 'default' in rules:
+            ctx.count('large_listings_16plus_undefined_refs_with_default')
+        else:
+            ctx.count('large_listings_16plus_undefined_refs_no_default')
+            seen = 0
+            for k, u in zip(keys, und):
+                if u:
+                    seen += 1
+                elif seen >= 16 and any(r in rules for r in rule_refs(rules[k])):
+                    # the history "16 or more look-ups of undefined names, then an ordinary alias look-up" within ONE checker run
+                    ctx.count('large_listings_defined_alias_after_16_undefined_refs_no_default')
+                    break
+
+
 def check_case(ctx, case):
     from oslo_policy import policy, shell
     tok = copy.deepcopy(sample_tokens()[case['sample']]) if case['sample'] is not None else case['token']
@@ -263,7 +433,8 @@ def check_case(ctx, case):
                 want.append(None)                 # library itself raises: verdict unconstrained here
         got = out.getvalue().splitlines()
         nontrivial = bool(case['rule']) or (any(w and w.startswith('passed') for w in want) and any(w and w.startswith('failed') for w in want))
-        ctx.case(case, nontrivial=nontrivial)
+        large = sum(1 for k in rules if ':' in k) >= 20
+        ctx.case(case, nontrivial=nontrivial, stratum='large-files' if large else None)
         if case['rule']:
             ctx.count('requested_rule_runs')
         ctx.count('verdict_lines', len(got))
@@ -281,7 +452,10 @@ def check_case(ctx, case):
         if None in want:
             ctx.unconstrained('library-raises-for-this-input')
             return
-        count_order_features(ctx, case['rule'], keys)
+        if large:
+            count_large_features(ctx, case['rule'], rules, keys)       # (the order counters stay those of the small-file sweep)
+        else:
+            count_order_features(ctx, case['rule'], keys)
         if got != want:
             diff_keys = [w.split(': ', 1)[1] for g, w in zip(got, want) if g != w] if len(got) == len(want) else []
             if len(got) != len(want) or [g.split(': ', 1)[-1] for g in got] != [w.split(': ', 1)[-1] for w in want]:
@@ -302,6 +476,19 @@ def check_case(ctx, case):
 
 
 def run(ctx):
+    # large-file stratum first, on its own random stream and with a capped share of the budget (the small-file sweep below keeps its stream and the rest)
+    lrnd = ctx.sub_rnd('large-files', ctx.tier, ctx.shard, ctx.nshards)
+    ctx.reserve(0.25)
+    for i in range(NL[ctx.tier] // ctx.nshards + 1):
+        if (i & 0x7) == 0 and ctx.expired():
+            break
+        case = gen_large_case(lrnd)
+        check_case(ctx, case)
+        if i % 40 == 0:
+            ctx.sample(dict(case, token='<generated %s>' % sorted(case['token']['token'])) if case['sample'] is None else
+                       dict(case, token='<sample token %d>' % case['sample']), stratum='large-files')
+    ctx.release()
+    ctx.stratum('large-files', exhaustive=False)
     rnd = ctx.rnd
     for i in range(N[ctx.tier] // ctx.nshards + 1):
         if (i & 0xf) == 0 and ctx.expired():
